@@ -79,6 +79,16 @@ struct TaskCtx : ClauseSink {
 
 thread_local TaskCtx* t_task = nullptr;
 
+// a tracer installed before the tasks start (C12: tracers are not installed concurrently with use, but they may be in
+// use by all threads). Its log is deliberately unsynchronised: the library delivers records with its lock held.
+struct TTracer : trompeloeil::tracer {
+  std::vector<std::string> log;
+  void trace(char const* file, unsigned long line, std::string const& call) override {
+    log.push_back(call);
+    if (t_task && t_task->cur) t_task->cur->traces.push_back(RawTrace{0, file ? file : "", line, call});
+  }
+};
+
 // an ordinary or a movable mock object (the two kinds use different specialisations of trompeloeil::expectations)
 struct MockBox {
   int kind = 0;
@@ -100,6 +110,7 @@ struct World {
   std::vector<EP> mons;
   std::vector<trompeloeil::deathwatched<PlainT>*> watched;
   std::vector<TaskCtx> tasks;                                         // ntasks + controller
+  std::unique_ptr<TTracer> tracer;
 };
 
 EP tmon0(trompeloeil::deathwatched<PlainT>* w, trompeloeil::sequence**) { return NAMED_REQUIRE_DESTRUCTION(*w); }
@@ -286,6 +297,7 @@ Plan gen_plan_t(uint64_t seed, bool faults) {
   // setup by the controller: mocks, sequences, a few long-lived expectations
   for (int i = 0; i < nmocks; ++i) { Op o; o.kind = OP_NEW_MOCK; o.a[0] = rng.chance(1, 3) ? 1 : 0; p.setup.push_back(o); }
   for (int i = 0; i < nseqs; ++i) { Op o; o.kind = OP_NEW_SEQ; p.setup.push_back(o); }
+  if (rng.chance(1, 3)) { Op o; o.kind = OP_PUSH_TRACER; p.setup.push_back(o); }
   int nfocus = rng.range(1, 2), focus[2] = {0, 0};
   static const int fw[NFN] = {10, 3, 5, 1, 2, 1, 2, 1, 2, 1, 1};
   for (int i = 0; i < nfocus; ++i) focus[i] = rng.pick(fw, NFN);
@@ -370,6 +382,7 @@ TResult run_modet(const Plan& plan) {
   for (auto& op : plan.setup) {
     if (op.kind == OP_NEW_MOCK) W.mocks.push_back(std::make_shared<MockBox>(op.a[0] & 1));
     else if (op.kind == OP_NEW_SEQ) W.seqs.push_back(std::unique_ptr<trompeloeil::sequence>(new trompeloeil::sequence));
+    else if (op.kind == OP_PUSH_TRACER && !W.tracer) W.tracer.reset(new TTracer);
   }
   W.task_refs.assign(static_cast<size_t>(W.ntasks) + 1, W.mocks);
   for (int t = 0; t <= W.ntasks; ++t) for (size_t m = 0; m < W.mocks.size(); ++m) W.tasks[static_cast<size_t>(t)].held_mocks.push_back(static_cast<int>(m));
@@ -420,6 +433,9 @@ TResult run_modet(const Plan& plan) {
     while (!T.held_mocks.empty()) { Op r; r.kind = OP_DROP_MOCK_REF; r.a[0] = 0; r.a[1] = 1; exec_op(W, T, r, false); }
   }
   t_task = &C; t_sink = &C;
+  const bool had_tracer = W.tracer != nullptr;
+  const long traced = had_tracer ? static_cast<long>(W.tracer->log.size()) : 0;
+  W.tracer.reset();
   {
     Obs o; C.cur = &o;
     W.seqs.clear();
@@ -467,11 +483,17 @@ TResult run_modet(const Plan& plan) {
       std::fprintf(stderr, "  | %s\n", os.str().c_str());
     }
   }
+  L.tracer_alive = had_tracer;
   L.debug = globals().verbose;
   { static const bool nh = std::getenv("SIM_LIN_NOHINT") != nullptr; L.no_hint = nh; }
   LinResult lr = L.check(S);
   R.lin_verdict = lr.verdict; R.lin_text = lr.text; R.lin_nodes = lr.nodes; R.lin_by_hint = lr.by_hint;
-  if (accepted != oks && lr.verdict == 1) { R.lin_verdict = 0; R.lin_text = "conservation: " + std::to_string(accepted) + " accepted calls but " + std::to_string(oks) + " OK reports"; }
+  // (a call rejected as forbidden or out of sequence has a handler and is traced as well, with the reporter's exception:
+  //  the per-operation rule in lin.hpp fixes the accepted calls only; here: no record outside the call that caused it)
+  long attributed = 0;
+  for (auto& o : L.ops) attributed += static_cast<long>(o.obs.traces.size());
+  if (had_tracer && traced != attributed && lr.verdict == 1) { R.lin_verdict = 0; R.lin_text = "conservation: the tracer holds " + std::to_string(traced) + " records but " + std::to_string(attributed) + " were delivered during mock calls"; }
+  else if (accepted != oks && lr.verdict == 1) { R.lin_verdict = 0; R.lin_text = "conservation: " + std::to_string(accepted) + " accepted calls but " + std::to_string(oks) + " OK reports"; }
   // history fingerprint and hash
   {
     std::ostringstream os;
